@@ -406,6 +406,8 @@ cJSON *add_element_to_peer(struct peer *p, const cJSON *request)
 	}
 
 	if (unlikely(find_fetchers_for_element(e) != 0)) {
+		/* fetchers that have already been told about the element must not keep it */
+		notify_fetchers(e, "remove");
 		element_table_remove(e->path);
 		free_element(e);
 		return create_error_response_from_request(p, request, INTERNAL_ERROR, "reason", "could not notify fetching peer");
